@@ -35,6 +35,11 @@ pub struct DocumentState {
 pub struct IncanLanguageServer {
     client: Client,
     documents: Arc<RwLock<HashMap<Url, DocumentState>>>,
+    /// Most recent open/change/close notification seen per document, in arrival order.
+    ///
+    /// Handlers run concurrently, so an analysis may finish after a newer notification for the same document was
+    /// received. Each handler takes a ticket on entry and only stores/publishes if its ticket is still the latest.
+    latest_tickets: Arc<std::sync::Mutex<(u64, HashMap<Url, u64>)>>,
 }
 
 impl IncanLanguageServer {
@@ -42,11 +47,37 @@ impl IncanLanguageServer {
         Self {
             client,
             documents: Arc::new(RwLock::new(HashMap::new())),
+            latest_tickets: Arc::new(std::sync::Mutex::new((0, HashMap::new()))),
         }
     }
 
+    /// Register a new notification for `uri` and return its ticket.
+    fn take_ticket(&self, uri: &Url) -> u64 {
+        let mut guard = self.latest_tickets.lock().unwrap_or_else(|e| e.into_inner());
+        guard.0 += 1;
+        let ticket = guard.0;
+        guard.1.insert(uri.clone(), ticket);
+        ticket
+    }
+
+    /// Whether `ticket` still belongs to the most recent notification for `uri`.
+    fn is_latest(&self, uri: &Url, ticket: u64) -> bool {
+        let guard = self.latest_tickets.lock().unwrap_or_else(|e| e.into_inner());
+        guard.1.get(uri) == Some(&ticket)
+    }
+
+    /// Store the state for `uri` unless a newer notification superseded this one. Returns false if superseded.
+    async fn store_if_latest(&self, uri: &Url, ticket: u64, state: DocumentState) -> bool {
+        let mut docs = self.documents.write().await;
+        if !self.is_latest(uri, ticket) {
+            return false;
+        }
+        docs.insert(uri.clone(), state);
+        true
+    }
+
     /// Analyze a document and publish diagnostics
-    async fn analyze_document(&self, uri: &Url, source: &str, version: i32) {
+    async fn analyze_document(&self, uri: &Url, source: &str, version: i32, ticket: u64) {
         let mut diagnostics = Vec::new();
 
         // Step 1: Lex
@@ -57,9 +88,17 @@ impl IncanLanguageServer {
                 for error in &errors {
                     diagnostics.push(compile_error_to_diagnostic(error, source, uri));
                 }
-                self.client
-                    .publish_diagnostics(uri.clone(), diagnostics, Some(version))
-                    .await;
+                let state = DocumentState {
+                    source: source.to_string(),
+                    ast: None,
+                    version,
+                    const_types: HashMap::new(),
+                };
+                if self.store_if_latest(uri, ticket, state).await {
+                    self.client
+                        .publish_diagnostics(uri.clone(), diagnostics, Some(version))
+                        .await;
+                }
                 return;
             }
         };
@@ -72,9 +111,17 @@ impl IncanLanguageServer {
                 for error in &errors {
                     diagnostics.push(compile_error_to_diagnostic(error, source, uri));
                 }
-                self.client
-                    .publish_diagnostics(uri.clone(), diagnostics, Some(version))
-                    .await;
+                let state = DocumentState {
+                    source: source.to_string(),
+                    ast: None,
+                    version,
+                    const_types: HashMap::new(),
+                };
+                if self.store_if_latest(uri, ticket, state).await {
+                    self.client
+                        .publish_diagnostics(uri.clone(), diagnostics, Some(version))
+                        .await;
+                }
                 return;
             }
         };
@@ -105,18 +152,15 @@ impl IncanLanguageServer {
             }
         }
 
-        // Store AST for hover/goto
-        {
-            let mut docs = self.documents.write().await;
-            docs.insert(
-                uri.clone(),
-                DocumentState {
-                    source: source.to_string(),
-                    ast: Some(ast),
-                    version,
-                    const_types,
-                },
-            );
+        // Store AST for hover/goto (unless a newer notification for this document arrived meanwhile)
+        let state = DocumentState {
+            source: source.to_string(),
+            ast: Some(ast),
+            version,
+            const_types,
+        };
+        if !self.store_if_latest(uri, ticket, state).await {
+            return;
         }
 
         // Publish diagnostics (even if empty, to clear old ones)
@@ -492,26 +536,30 @@ impl LanguageServer for IncanLanguageServer {
         let uri = params.text_document.uri;
         let source = params.text_document.text;
         let version = params.text_document.version;
+        let ticket = self.take_ticket(&uri);
 
-        self.analyze_document(&uri, &source, version).await;
+        self.analyze_document(&uri, &source, version, ticket).await;
     }
 
     async fn did_change(&self, params: DidChangeTextDocumentParams) {
         let uri = params.text_document.uri;
         let version = params.text_document.version;
+        let ticket = self.take_ticket(&uri);
 
         // We use FULL sync, so there's only one change with the full content
         if let Some(change) = params.content_changes.into_iter().next() {
-            self.analyze_document(&uri, &change.text, version).await;
+            self.analyze_document(&uri, &change.text, version, ticket).await;
         }
     }
 
     async fn did_close(&self, params: DidCloseTextDocumentParams) {
         let uri = params.text_document.uri;
+        let _ticket = self.take_ticket(&uri);
 
         // Remove document from cache
         let mut docs = self.documents.write().await;
         docs.remove(&uri);
+        drop(docs);
 
         // Clear diagnostics
         self.client.publish_diagnostics(uri, vec![], None).await;
